@@ -134,7 +134,14 @@ def run(ctx, chk):
         for name, ops in d["entries"]:
             for v, m in ops:
                 triples.append(("%s::%s" % (d["param_ty"], name), v, m, WP))
-    # hand-written special kinds
+    # hand-written special kinds: context dependent literals (parse_literal) and the switch pair
+    from . import c10
+    try:
+        for v, m in sorted(c10.literal_results(ctx)):
+            triples.append(("LiteralContextDependentNumber", v, m, raw.where("parse_literal", "Parser")))
+    except Anchor as ex:
+        chk.bad(R4, "parse_literal", "context dependent literals are not decoded as Operand::V(self.decoder.m()?) - the decoded word "
+                "is transformed or the width dispatch is not analysable: %s" % ex, raw.where("parse_literal", "Parser"), key="C02:parse_literal")
     triples += [("IdResultType", None, "id", None), ("IdResult", None, "id", None)]
     seen_v = set()
     for k, v, m, w in triples:
